@@ -374,6 +374,8 @@ class Reader:
                 data = self.consume("STRING")[1]
                 data = unhexlify(data)
                 ins = ir.LiteralData(data, name)
+            elif a == "undefined":
+                ins = ir.Undefined(name, ty)
             elif a in ("inf", "nan"):
                 ins = ir.Const(float(a), name, ty)
             else:
